@@ -125,6 +125,18 @@ def gen_case(draw):
     _, idx = store.standard_template()
     n = draw(st.integers(1, 4))
     case = {"prefix": [draw(gen_req(idx)) for _ in range(n)], "probe": draw(gen_req(idx, probe=True))}
+    if draw(st.integers(0, 3)) == 0:
+        # the probe was already sent once or twice before (same version, same items, possibly by
+        # somebody else): what the engine remembers of "the first time" must not show
+        for _ in range(draw(st.integers(1, 2))):
+            again = copy.deepcopy(case["probe"])
+            if draw(st.booleans()):
+                again["who"] = draw(st.sampled_from(USERS))
+            case["prefix"].insert(draw(st.integers(0, len(case["prefix"]))), again)
+    if draw(st.integers(0, 2)) == 0:
+        # everybody speaks the probe's version (what is remembered per version shows only then)
+        for r in case["prefix"]:
+            r["v"] = list(case["probe"]["v"])
     _skew(draw, case["prefix"] + [case["probe"]])
     return case
 
